@@ -33,7 +33,9 @@ def initNode : Node :=
   let bal : KV String Int := [
     ("u0", userFunds), ("u1", userFunds), ("u2", userFunds), ("u3", userFunds),
     ("ca1", userFunds - 3 * 210000), ("ca2", userFunds - 4 * 210000), ("ca3", userFunds - 2 * 210000), ("ca4", userFunds - 2 * 210000),
-    ("adm0", genesisBalance), ("adm1", genesisBalance), ("adm2", genesisBalance), ("adm3", genesisBalance)]
+    -- the genesis balance, plus / minus what the world's prelude (funding of the users and chain admins by adm0, registrations and
+    -- votes, all at price 1) leaves each administrator with
+    ("adm0", genesisBalance - 8000000126000), ("adm1", genesisBalance + 42000), ("adm2", genesisBalance + 42000), ("adm3", genesisBalance + 2352000)]
   { led := { store := store, bal := bal }, height := 6 }
 
 def parseKV (ws : List String) (k : String) : Option String :=
@@ -226,7 +228,11 @@ def step (s : St) (ws : List String) : St × String :=
     let hub := parseKV opts "hub" == some "1"
     let cfg : Cfg := { price := price, audit := audit, hubs := if hub then ["9999"] else [] }
     let n0 : Node := if hub then
-        { initNode with height := 11, led := { initNode.led with bal := initNode.led.bal ++ [("ca9", 100000000000 - 210000)] } }
+        -- five more prelude blocks: adm0 funds ca9, ca9 registers the relay chain, three admins vote
+        { initNode with height := 11, led := { initNode.led with bal :=
+            (initNode.led.bal.filter (fun p => !(p.1 == "adm0" || p.1 == "adm1" || p.1 == "adm2" || p.1 == "adm3"))) ++
+            [("adm0", genesisBalance - 8100000141750), ("adm1", genesisBalance + 47250), ("adm2", genesisBalance + 47250),
+             ("adm3", genesisBalance + 2567250), ("ca9", 100000000000 - 210000)] } }
       else initNode
     ({ cfg := cfg, node := n0, started := true, hist := [(n0.height, n0)] }, s!"ok h={n0.height}")
   | "block" :: rest => doBlock s rest
